@@ -713,21 +713,41 @@ Proof.
     apply (cset_frame _ _ _ _ _ Hs). apply Hout. left. reflexivity.
 Qed.
 
-Lemma insert_op_perm (o : sop D) l : Permutation (insert_op D o l) (o :: l).
+Lemma insert_op_perm ms (o : sop D) l : Permutation (insert_op D ms o l) (o :: l).
 Proof.
   induction l as [|x r IH]; cbn [insert_op]; [apply Permutation_refl|].
-  destruct (Nat.ltb (op_rank D o) (op_rank D x)); [apply Permutation_refl|].
+  destruct (Nat.ltb (op_rank D ms o) (op_rank D ms x)); [apply Permutation_refl|].
   apply (perm_trans (perm_skip x IH)). apply perm_swap.
 Qed.
 
 Theorem order_ops_perm (ops : list (sop D)) : Permutation (order_ops D ops) ops.
 Proof.
-  unfold order_ops.
-  assert (Hg : forall acc, Permutation (fold_left (fun acc o => insert_op D o acc) ops acc) (acc ++ ops)).
+  unfold order_ops. generalize (mothers D ops) as ms. intros ms.
+  assert (Hg : forall acc, Permutation (fold_left (fun acc o => insert_op D ms o acc) ops acc) (acc ++ ops)).
   { induction ops as [|o r IH]; intros acc; cbn [fold_left].
     - rewrite app_nil_r. apply Permutation_refl.
-    - apply (perm_trans (IH (insert_op D o acc))).
-      apply (perm_trans (Permutation_app_tail r (insert_op_perm o acc))).
+    - apply (perm_trans (IH (insert_op D ms o acc))).
+      apply (perm_trans (Permutation_app_tail r (insert_op_perm ms o acc))).
+      cbn [app]. apply Permutation_middle. }
+  apply (Hg []).
+Qed.
+
+(* the pinned order (for the record) *)
+Lemma insert_op_pinned_perm (o : sop D) l : Permutation (insert_op_pinned D o l) (o :: l).
+Proof.
+  induction l as [|x r IH]; cbn [insert_op_pinned]; [apply Permutation_refl|].
+  destruct (Nat.ltb (op_rank_pinned D o) (op_rank_pinned D x)); [apply Permutation_refl|].
+  apply (perm_trans (perm_skip x IH)). apply perm_swap.
+Qed.
+
+Theorem order_ops_pinned_perm (ops : list (sop D)) : Permutation (order_ops_pinned D ops) ops.
+Proof.
+  unfold order_ops_pinned.
+  assert (Hg : forall acc, Permutation (fold_left (fun acc o => insert_op_pinned D o acc) ops acc) (acc ++ ops)).
+  { induction ops as [|o r IH]; intros acc; cbn [fold_left].
+    - rewrite app_nil_r. apply Permutation_refl.
+    - apply (perm_trans (IH (insert_op_pinned D o acc))).
+      apply (perm_trans (Permutation_app_tail r (insert_op_pinned_perm o acc))).
       cbn [app]. apply Permutation_middle. }
   apply (Hg []).
 Qed.
@@ -854,39 +874,63 @@ Proof.
   rewrite Hr. apply in_or_app. right. left. reflexivity.
 Qed.
 
-(* several operations in one update: sorted by rank *)
-Definition rank_le (a b : sop D) : Prop := (op_rank D a <= op_rank D b)%nat.
-Inductive ssorted : list (sop D) -> Prop :=
-| ssorted_nil : ssorted []
-| ssorted_cons x r : ssorted r -> Forall (rank_le x) r -> ssorted (x :: r).
+(* several operations in one update: sorted by rank (rk: the rank, of the repaired or of the pinned order) *)
+Definition rank_le (rk : sop D -> nat) (a b : sop D) : Prop := (rk a <= rk b)%nat.
+Inductive ssorted (rk : sop D -> nat) : list (sop D) -> Prop :=
+| ssorted_nil : ssorted rk []
+| ssorted_cons x r : ssorted rk r -> Forall (rank_le rk x) r -> ssorted rk (x :: r).
 
-Lemma insert_op_sorted o l :
-  ssorted l -> ssorted (insert_op D o l).
+Lemma insert_op_sorted ms o l :
+  ssorted (op_rank D ms) l -> ssorted (op_rank D ms) (insert_op D ms o l).
 Proof.
   intros Hs. induction Hs as [|x r Hs IH Hall]; cbn [insert_op].
   - constructor; constructor.
-  - destruct (Nat.ltb (op_rank D o) (op_rank D x)) eqn:E.
+  - destruct (Nat.ltb (op_rank D ms o) (op_rank D ms x)) eqn:E.
     + apply Nat.ltb_lt in E. constructor; [constructor; assumption|].
       constructor; [unfold rank_le; lia|].
       rewrite Forall_forall in Hall |- *. intros y Hy. specialize (Hall y Hy). unfold rank_le in *. lia.
     + apply Nat.ltb_ge in E. constructor; [exact IH|].
       rewrite Forall_forall in Hall |- *. intros y Hy.
-      apply (Permutation_in y (insert_op_perm o r)) in Hy. destruct Hy as [<-|Hy]; [exact E|auto].
+      apply (Permutation_in y (insert_op_perm ms o r)) in Hy. destruct Hy as [<-|Hy]; [exact E|auto].
 Qed.
 
-Lemma order_ops_ssorted (ops : list (sop D)) : ssorted (order_ops D ops).
+Lemma order_ops_ssorted (ops : list (sop D)) : ssorted (op_rank D (mothers D ops)) (order_ops D ops).
 Proof.
-  unfold order_ops.
-  assert (Hg : forall acc, ssorted acc ->
-                           ssorted (fold_left (fun acc o => insert_op D o acc) ops acc)).
+  unfold order_ops. generalize (mothers D ops) as ms. intros ms.
+  assert (Hg : forall acc, ssorted (op_rank D ms) acc ->
+                           ssorted (op_rank D ms) (fold_left (fun acc o => insert_op D ms o acc) ops acc)).
   { induction ops as [|o r IH]; intros acc Hacc; cbn [fold_left]; [exact Hacc|].
     apply IH. apply insert_op_sorted. exact Hacc. }
   apply Hg. constructor.
 Qed.
 
-Lemma ssorted_nth (l : list (sop D)) dflt :
-  ssorted l ->
-  forall i j, (i < j < length l)%nat -> rank_le (nth i l dflt) (nth j l dflt).
+Lemma insert_op_pinned_sorted o l :
+  ssorted (op_rank_pinned D) l -> ssorted (op_rank_pinned D) (insert_op_pinned D o l).
+Proof.
+  intros Hs. induction Hs as [|x r Hs IH Hall]; cbn [insert_op_pinned].
+  - constructor; constructor.
+  - destruct (Nat.ltb (op_rank_pinned D o) (op_rank_pinned D x)) eqn:E.
+    + apply Nat.ltb_lt in E. constructor; [constructor; assumption|].
+      constructor; [unfold rank_le; lia|].
+      rewrite Forall_forall in Hall |- *. intros y Hy. specialize (Hall y Hy). unfold rank_le in *. lia.
+    + apply Nat.ltb_ge in E. constructor; [exact IH|].
+      rewrite Forall_forall in Hall |- *. intros y Hy.
+      apply (Permutation_in y (insert_op_pinned_perm o r)) in Hy. destruct Hy as [<-|Hy]; [exact E|auto].
+Qed.
+
+Lemma order_ops_pinned_ssorted (ops : list (sop D)) : ssorted (op_rank_pinned D) (order_ops_pinned D ops).
+Proof.
+  unfold order_ops_pinned.
+  assert (Hg : forall acc, ssorted (op_rank_pinned D) acc ->
+                           ssorted (op_rank_pinned D) (fold_left (fun acc o => insert_op_pinned D o acc) ops acc)).
+  { induction ops as [|o r IH]; intros acc Hacc; cbn [fold_left]; [exact Hacc|].
+    apply IH. apply insert_op_pinned_sorted. exact Hacc. }
+  apply Hg. constructor.
+Qed.
+
+Lemma ssorted_nth rk (l : list (sop D)) dflt :
+  ssorted rk l ->
+  forall i j, (i < j < length l)%nat -> rank_le rk (nth i l dflt) (nth j l dflt).
 Proof.
   intros Hs. induction Hs as [|x r Hs IH Hall]; intros i j Hij; cbn [length] in Hij; [lia|].
   destruct j as [|j']; [lia|]. destruct i as [|i']; cbn [nth].
@@ -896,9 +940,19 @@ Qed.
 
 Theorem order_ops_sorted (ops : list (sop D)) :
   forall i j, (i < j < length (order_ops D ops))%nat ->
-  (op_rank D (nth i (order_ops D ops) (OpDelete D 0%N)) <= op_rank D (nth j (order_ops D ops) (OpDelete D 0%N)))%nat.
+  (op_rank D (mothers D ops) (nth i (order_ops D ops) (OpDelete D 0%N)) <=
+   op_rank D (mothers D ops) (nth j (order_ops D ops) (OpDelete D 0%N)))%nat.
 Proof.
-  intros i j Hij. apply (ssorted_nth _ _ (order_ops_ssorted ops) i j Hij).
+  intros i j Hij. apply (ssorted_nth _ _ _ (order_ops_ssorted ops) i j Hij).
+Qed.
+
+(* the pinned order (for the record) *)
+Theorem order_ops_pinned_sorted (ops : list (sop D)) :
+  forall i j, (i < j < length (order_ops_pinned D ops))%nat ->
+  (op_rank_pinned D (nth i (order_ops_pinned D ops) (OpDelete D 0%N)) <=
+   op_rank_pinned D (nth j (order_ops_pinned D ops) (OpDelete D 0%N)))%nat.
+Proof.
+  intros i j Hij. apply (ssorted_nth _ _ _ (order_ops_pinned_ssorted ops) i j Hij).
 Qed.
 
 (* ---- C11: the split divider conserves the total, for every integer ---- *)
@@ -972,38 +1026,27 @@ Proof.
     + intros [Hin Hds]. split; [split; [exact Hin|]|]; intros; apply Hds; cbn [In]; auto.
 Qed.
 
-Lemma book_apply_shape b rp b' :
-  book_apply b rp = Ok b' ->
-  exists b3, b_procs b' = fold_left pdrop (r_deletions rp) (b_procs b3)
-             /\ b_steps b' = fold_left pdrop (r_deletions rp) (b_steps b3).
-Proof.
-  unfold book_apply. intros H.
-  dres H b2 E2. dres H b3 E3. inversion H; subst. exists b3. split.
-  - apply dfold_procs. reflexivity.
-  - apply dfold_steps. reflexivity.
-Qed.
+(* ---- Engine._delete_path over the reported deletions: the two tables ---- *)
+Lemma book_delete_procs b ds : b_procs (book_delete b ds) = fold_left pdrop ds (b_procs b).
+Proof. unfold book_delete. apply dfold_procs. reflexivity. Qed.
 
-(* after the deletions of a report are folded in, no registered process or step lies under a deleted path *)
-Theorem book_apply_drops b rp b' d p o :
-  book_apply b rp = Ok b' -> In d (r_deletions rp) -> In (p, o) (b_procs b' ) -> starts_with p d = false.
-Proof.
-  intros H Hd Hin. apply book_apply_shape in H. destruct H as (b3 & Hp & _).
-  rewrite Hp in Hin. apply pdrop_fold_in in Hin. destruct Hin as [_ Hall]. apply (Hall d Hd).
-Qed.
+Lemma book_delete_steps b ds : b_steps (book_delete b ds) = fold_left pdrop ds (b_steps b).
+Proof. unfold book_delete. apply dfold_steps. reflexivity. Qed.
 
-Theorem book_apply_drops_steps b rp b' d p o :
-  book_apply b rp = Ok b' -> In d (r_deletions rp) -> In (p, o) (b_steps b') -> starts_with p d = false.
-Proof.
-  intros H Hd Hin. apply book_apply_shape in H. destruct H as (b3 & _ & Hs).
-  rewrite Hs in Hin. apply pdrop_fold_in in Hin. destruct Hin as [_ Hall]. apply (Hall d Hd).
-Qed.
-
+(* ---- pset: `dict[path] = object` on an insertion-ordered table ---- *)
 Lemma kpath_eqb_eq p : forall q, kpath_eqb p q = true -> p = q.
 Proof.
   induction p as [|x p IH]; intros [|y q] H; try reflexivity; try discriminate H.
   change (kpath_eqb (x :: p) (y :: q)) with (N.eqb x y && kpath_eqb p q) in H.
   apply andb_true_iff in H. destruct H as [Hx Hp]. apply N.eqb_eq in Hx. subst y.
   rewrite (IH q Hp). reflexivity.
+Qed.
+
+Lemma kpath_eqb_refl p : kpath_eqb p p = true.
+Proof.
+  induction p as [|x p IH]; [reflexivity|].
+  change (kpath_eqb (x :: p) (x :: p)) with (N.eqb x x && kpath_eqb p p).
+  rewrite N.eqb_refl, IH. reflexivity.
 Qed.
 
 Lemma pset_keys_in {A} (l : list (list key * A)) p a : In p (map fst (pset l p a)).
@@ -1021,36 +1064,321 @@ Proof.
   destruct Hin as [Hq|Hin]; [left; exact Hq|right; apply IH; exact Hin].
 Qed.
 
+(* the assigned entry is there; entries of other paths stay; nothing else appears (no premise on the table) *)
+Lemma pset_in_self {A} (l : list (list key * A)) p a : In (p, a) (pset l p a).
+Proof.
+  induction l as [|[q b0] r IH]; cbn [pset In]; [left; reflexivity|].
+  destruct (kpath_eqb q p) eqn:E; cbn [In].
+  - left. apply kpath_eqb_eq in E. subst q. reflexivity.
+  - right. exact IH.
+Qed.
+
+Lemma pset_in_other {A} (l : list (list key * A)) p a q o : q <> p -> In (q, o) l -> In (q, o) (pset l p a).
+Proof.
+  intros Hne. induction l as [|[q0 b0] r IH]; cbn [pset In]; [intros []|].
+  intros Hin. destruct (kpath_eqb q0 p) eqn:E; cbn [In].
+  - destruct Hin as [Hq|Hin]; [|right; exact Hin]. inversion Hq; subst q0 b0.
+    apply kpath_eqb_eq in E. congruence.
+  - destruct Hin as [Hq|Hin]; [left; exact Hq|right; apply IH; exact Hin].
+Qed.
+
+Lemma pset_in_inv {A} (l : list (list key * A)) p a q o :
+  In (q, o) (pset l p a) -> (q = p /\ o = a) \/ In (q, o) l.
+Proof.
+  induction l as [|[q0 b0] r IH]; cbn [pset In].
+  - intros [H|[]]. inversion H; subst. left. auto.
+  - destruct (kpath_eqb q0 p) eqn:E; cbn [In].
+    + intros [H|H]; [|right; right; exact H]. inversion H; subst q0 o.
+      apply kpath_eqb_eq in E. left. auto.
+    + intros [H|H]; [right; left; exact H|]. destruct (IH H) as [H'|H']; [left; exact H'|right; right; exact H'].
+Qed.
+
+(* ---- what Engine.apply_update registers ---- *)
+(* a reported process / step, its table entry, the assignment of one entry *)
+Definition nonstep (pp : list key * pinfo) : bool := negb (pi_step (snd pp)).
+Definition isstep (pp : list key * pinfo) : bool := pi_step (snd pp).
+Definition entry (pp : list key * pinfo) : list key * N := (fst pp, pi_obj (snd pp)).
+Definition psetf (acc : list (list key * N)) (pp : list key * pinfo) : list (list key * N) :=
+  pset acc (fst pp) (pi_obj (snd pp)).
+
+(* what Engine.apply_update files as a step: every Step found among the process updates (pinned Store.move
+   reports moved steps there too; Store.insert reports there the Steps that were listed in the `processes`
+   dict), then every entry of the step updates, whatever is_step() says.  The flow updates only supply the
+   dependencies handed to _add_step_path: they change the graph (and can make it raise), not the table. *)
+Definition step_adds (rp : reports) : list (list key * pinfo) := filter isstep (r_process rp) ++ r_step rp.
+
+Lemma in_filter_nonstep l q pi : In (q, pi) (filter nonstep l) <-> In (q, pi) l /\ pi_step pi = false.
+Proof. rewrite filter_In. unfold nonstep. cbn [snd]. rewrite negb_true_iff. reflexivity. Qed.
+
+Lemma in_filter_isstep l q pi : In (q, pi) (filter isstep l) <-> In (q, pi) l /\ pi_step pi = true.
+Proof. rewrite filter_In. unfold isstep. cbn [snd]. reflexivity. Qed.
+
+Lemma in_step_adds rp q pi :
+  In (q, pi) (step_adds rp) <-> (In (q, pi) (r_process rp) /\ pi_step pi = true) \/ In (q, pi) (r_step rp).
+Proof. unfold step_adds. rewrite in_app_iff, in_filter_isstep. reflexivity. Qed.
+
 Lemma add_step_procs bk p pi deps bk' : add_step bk p pi deps = Ok bk' -> b_procs bk' = b_procs bk.
 Proof.
   unfold add_step. intros H. dres H g0 Eg. inversion H; subst. reflexivity.
 Qed.
 
-(* every reported process is registered unless it lies under a deletion of the same report *)
+Lemma add_step_steps bk p pi deps bk' :
+  add_step bk p pi deps = Ok bk' -> b_steps bk' = pset (b_steps bk) p (pi_obj pi).
+Proof.
+  unfold add_step. intros H. dres H g0 Eg. inversion H; subst. reflexivity.
+Qed.
+
+(* a fold of registrations, seen through one of the two tables *)
+Lemma sfold_sel (proj : book -> list (list key * N)) (G : res book -> list key * pinfo -> res book)
+      (sel : list key * pinfo -> bool) :
+  (forall x e, G (Err e) x = Err e) ->
+  (forall bk x bk1, G (Ok bk) x = Ok bk1 -> proj bk1 = if sel x then psetf (proj bk) x else proj bk) ->
+  forall l bk b2, fold_left G l (Ok bk) = Ok b2 -> proj b2 = fold_left psetf (filter sel l) (proj bk).
+Proof.
+  intros Herr HG. induction l as [|x l IH]; intros bk b2 H.
+  - cbn in H. inversion H; subst. reflexivity.
+  - cbn [fold_left] in H. destruct (G (Ok bk) x) as [bk1|e] eqn:E;
+      [|rewrite (fold_err G Herr) in H; discriminate H].
+    rewrite (IH bk1 b2 H), (HG bk x bk1 E). cbn [filter]. destruct (sel x); reflexivity.
+Qed.
+
+Lemma filter_all {A} (l : list A) : filter (fun _ => true) l = l.
+Proof. induction l as [|x l IH]; [reflexivity|]. cbn [filter]. rewrite IH. reflexivity. Qed.
+
+Lemma filter_none {A} (l : list A) : filter (fun _ => false) l = [].
+Proof. induction l as [|x l IH]; [reflexivity|]. exact IH. Qed.
+
+(* the registration part, explicitly and without any premise: the non-step process updates are assigned to
+   the process table in order, what is filed as a step (step_adds) to the step table in order *)
+Theorem book_register_tables b rp b' :
+  book_register b rp = Ok b' ->
+  b_procs b' = fold_left psetf (filter nonstep (r_process rp)) (b_procs b) /\
+  b_steps b' = fold_left psetf (step_adds rp) (b_steps b).
+Proof.
+  unfold book_register. intros H. dres H b2 E2.
+  split.
+  - assert (H2 : b_procs b2 = fold_left psetf (filter nonstep (r_process rp)) (b_procs b)).
+    { refine (sfold_sel b_procs _ nonstep _ _ _ _ _ E2).
+      - reflexivity.
+      - intros bk x bk1 Hg. cbn [rbind] in Hg. unfold nonstep. destruct (pi_step (snd x)); cbn [negb].
+        + apply add_step_procs in Hg. exact Hg.
+        + inversion Hg; subst. reflexivity. }
+    rewrite <- H2.
+    assert (H3 : b_procs b' = fold_left psetf (filter (fun _ => false) (r_step rp)) (b_procs b2)).
+    { refine (sfold_sel b_procs _ (fun _ => false) _ _ _ _ _ H).
+      - reflexivity.
+      - intros bk x bk1 Hg. cbn [rbind] in Hg. apply add_step_procs in Hg. exact Hg. }
+    rewrite H3, filter_none. reflexivity.
+  - assert (H2 : b_steps b2 = fold_left psetf (filter isstep (r_process rp)) (b_steps b)).
+    { refine (sfold_sel b_steps _ isstep _ _ _ _ _ E2).
+      - reflexivity.
+      - intros bk x bk1 Hg. cbn [rbind] in Hg. unfold isstep. destruct (pi_step (snd x)).
+        + apply add_step_steps in Hg. exact Hg.
+        + inversion Hg; subst. reflexivity. }
+    assert (H3 : b_steps b' = fold_left psetf (filter (fun _ => true) (r_step rp)) (b_steps b2)).
+    { refine (sfold_sel b_steps _ (fun _ => true) _ _ _ _ _ H).
+      - reflexivity.
+      - intros bk x bk1 Hg. cbn [rbind] in Hg. apply add_step_steps in Hg. exact Hg. }
+    rewrite H3, H2, filter_all. unfold step_adds. rewrite fold_left_app. reflexivity.
+Qed.
+
+(* Engine.apply_update, both tables, without any premise: first everything under a reported deletion goes,
+   then the reported processes / steps are assigned in order (the last report of a path wins) *)
+Theorem book_apply_tables b rp b' :
+  book_apply b rp = Ok b' ->
+  b_procs b' = fold_left psetf (filter nonstep (r_process rp)) (fold_left pdrop (r_deletions rp) (b_procs b)) /\
+  b_steps b' = fold_left psetf (step_adds rp) (fold_left pdrop (r_deletions rp) (b_steps b)).
+Proof.
+  unfold book_apply. intros H. apply book_register_tables in H.
+  rewrite book_delete_procs, book_delete_steps in H. exact H.
+Qed.
+
+Theorem book_apply_procs_eq b rp b' :
+  book_apply b rp = Ok b' ->
+  b_procs b' = fold_left psetf (filter nonstep (r_process rp)) (fold_left pdrop (r_deletions rp) (b_procs b)).
+Proof. intros H. apply (book_apply_tables b rp b' H). Qed.
+
+Theorem book_apply_steps_eq b rp b' :
+  book_apply b rp = Ok b' ->
+  b_steps b' = fold_left psetf (step_adds rp) (fold_left pdrop (r_deletions rp) (b_steps b)).
+Proof. intros H. apply (book_apply_tables b rp b' H). Qed.
+
+(* the pinned order, for the record: registered first, everything under a reported deletion dropped last *)
+Theorem book_apply_pinned_tables b rp b' :
+  book_apply_pinned b rp = Ok b' ->
+  b_procs b' = fold_left pdrop (r_deletions rp) (fold_left psetf (filter nonstep (r_process rp)) (b_procs b)) /\
+  b_steps b' = fold_left pdrop (r_deletions rp) (fold_left psetf (step_adds rp) (b_steps b)).
+Proof.
+  unfold book_apply_pinned. intros H. dres H b3 E3. inversion H; subst b'.
+  apply book_register_tables in E3. destruct E3 as [Hp Hs].
+  rewrite book_delete_procs, book_delete_steps, Hp, Hs. auto.
+Qed.
+
+(* ... where nothing registered survived under a deleted path, not even what the same update had put there *)
+Theorem book_apply_pinned_drops b rp b' d p o :
+  book_apply_pinned b rp = Ok b' -> In d (r_deletions rp) ->
+  In (p, o) (b_procs b') \/ In (p, o) (b_steps b') -> starts_with p d = false.
+Proof.
+  intros H Hd Hin. apply book_apply_pinned_tables in H. destruct H as [Hp Hs]. rewrite Hp, Hs in Hin.
+  destruct Hin as [Hin|Hin]; apply pdrop_fold_in in Hin; destruct Hin as [_ Hall]; apply (Hall d Hd).
+Qed.
+
+(* an entry of a table built by assignments is an entry of the table it started from or an assigned one *)
+Lemma psetf_fold_inv adds : forall l q o,
+  In (q, o) (fold_left psetf adds l) -> In (q, o) l \/ exists pi, In (q, pi) adds /\ o = pi_obj pi.
+Proof.
+  induction adds as [|[p pi] adds IH]; intros l q o Hin; cbn [fold_left] in Hin; [left; exact Hin|].
+  destruct (IH _ _ _ Hin) as [H|(pi0 & H & Ho)].
+  - unfold psetf in H. cbn [fst snd] in H. apply pset_in_inv in H. destruct H as [[-> ->]|H]; [|left; exact H].
+    right. exists pi. split; [left; reflexivity|reflexivity].
+  - right. exists pi0. split; [right; exact H|exact Ho].
+Qed.
+
+(* DELETIONS FIRST: after Engine.apply_update a registered process lies under a path the update deleted only if
+   the same update (re-)registered it there -- what left its place is gone, what was put there stays *)
+Theorem book_apply_drops b rp b' d p o :
+  book_apply b rp = Ok b' -> In d (r_deletions rp) -> In (p, o) (b_procs b') -> starts_with p d = true ->
+  exists pi, In (p, pi) (r_process rp) /\ pi_step pi = false /\ o = pi_obj pi.
+Proof.
+  intros H Hd Hin Hsw. rewrite (book_apply_procs_eq b rp b' H) in Hin.
+  apply psetf_fold_inv in Hin. destruct Hin as [Hin|(pi & Hin & Ho)].
+  - apply pdrop_fold_in in Hin. destruct Hin as [_ Hall]. rewrite (Hall d Hd) in Hsw. discriminate Hsw.
+  - apply in_filter_nonstep in Hin. destruct Hin as [Hin Hs]. exists pi. auto.
+Qed.
+
+(* ... a registered step: only if the same update filed it, through the step updates or as a Step among the
+   process updates *)
+Theorem book_apply_drops_steps b rp b' d p o :
+  book_apply b rp = Ok b' -> In d (r_deletions rp) -> In (p, o) (b_steps b') -> starts_with p d = true ->
+  exists pi, (In (p, pi) (r_step rp) \/ In (p, pi) (r_process rp) /\ pi_step pi = true) /\ o = pi_obj pi.
+Proof.
+  intros H Hd Hin Hsw. rewrite (book_apply_steps_eq b rp b' H) in Hin.
+  apply psetf_fold_inv in Hin. destruct Hin as [Hin|(pi & Hin & Ho)].
+  - apply pdrop_fold_in in Hin. destruct Hin as [_ Hall]. rewrite (Hall d Hd) in Hsw. discriminate Hsw.
+  - apply in_step_adds in Hin. exists pi. split; [|exact Ho]. destruct Hin as [Hin|Hin]; auto.
+Qed.
+
+(* the former statement, under the premise it now needs: no reported process lies under a reported deletion *)
+Corollary book_apply_drops_unreported b rp b' d p o :
+  (forall q pi, In (q, pi) (r_process rp) -> pi_step pi = false ->
+                forall d0, In d0 (r_deletions rp) -> starts_with q d0 = false) ->
+  book_apply b rp = Ok b' -> In d (r_deletions rp) -> In (p, o) (b_procs b') -> starts_with p d = false.
+Proof.
+  intros Hcl H Hd Hin. destruct (starts_with p d) eqn:E; [|reflexivity].
+  destruct (book_apply_drops b rp b' d p o H Hd Hin E) as (pi & Hr & Hs & _).
+  rewrite (Hcl p pi Hr Hs d Hd) in E. discriminate E.
+Qed.
+
+Corollary book_apply_drops_steps_unreported b rp b' d p o :
+  (forall q pi, In (q, pi) (r_process rp ++ r_step rp) ->
+                forall d0, In d0 (r_deletions rp) -> starts_with q d0 = false) ->
+  book_apply b rp = Ok b' -> In d (r_deletions rp) -> In (p, o) (b_steps b') -> starts_with p d = false.
+Proof.
+  intros Hcl H Hd Hin. destruct (starts_with p d) eqn:E; [|reflexivity].
+  destruct (book_apply_drops_steps b rp b' d p o H Hd Hin E) as (pi & Hr & _).
+  assert (Hin' : In (p, pi) (r_process rp ++ r_step rp)).
+  { apply in_or_app. destruct Hr as [Hr|[Hr _]]; auto. }
+  rewrite (Hcl p pi Hin' d Hd) in E. discriminate E.
+Qed.
+
+(* every reported (non-step) process is registered -- also under a path the same update deleted *)
+Lemma psetf_fold_keys adds : forall l p, In p (map fst l) \/ In p (map fst adds) -> In p (map fst (fold_left psetf adds l)).
+Proof.
+  induction adds as [|x adds IH]; intros l p H; cbn [fold_left].
+  - destruct H as [H|[]]. exact H.
+  - apply IH. cbn [map In] in H. destruct H as [H|[H|H]].
+    + left. apply pset_keys_pres. exact H.
+    + left. subst p. apply pset_keys_in.
+    + right. exact H.
+Qed.
+
 Theorem book_apply_registers b rp b' p pi :
   book_apply b rp = Ok b' -> In (p, pi) (r_process rp) -> pi_step pi = false ->
-  (forall d, In d (r_deletions rp) -> starts_with p d = false) -> In p (map fst (b_procs b')).
+  In p (map fst (b_procs b')).
 Proof.
-  unfold book_apply. intros H Hin Hst Hnd.
-  dres H b2 E2. dres H b3 E3. inversion H as [Hb']; clear H.
-  assert (H2 : In p (map fst (b_procs b2))).
-  { refine (rfold_reg _ (fun y bk => pi_step (snd y) = false -> In (fst y) (map fst (b_procs bk)))
-                      _ _ _ E2 _ _ _ (p, pi) Hin Hst).
-    - reflexivity.
-    - intros a0 x a1 Hg Hx. cbn [rbind] in Hg. rewrite Hx in Hg. inversion Hg; subst. cbn [b_procs].
-      apply pset_keys_in.
-    - intros a0 x y a1 Hg Hy Hys. specialize (Hy Hys). cbn [rbind] in Hg.
-      destruct (pi_step (snd x)).
-      + apply add_step_procs in Hg. rewrite Hg. exact Hy.
-      + inversion Hg; subst. cbn [b_procs]. apply pset_keys_pres. exact Hy. }
-  assert (H3 : In p (map fst (b_procs b3))).
-  { refine (rfold_inv _ (fun bk => In p (map fst (b_procs bk))) _ _ _ E3 _ _ H2).
-    - reflexivity.
-    - intros a0 x a1 Hg Ha. cbn [rbind] in Hg. apply add_step_procs in Hg. rewrite Hg. exact Ha. }
-  rewrite dfold_procs by reflexivity.
-  apply in_map_iff in H3. destruct H3 as ([p0 o] & Hp0 & Hin3). cbn [fst] in Hp0. subst p0.
-  apply in_map_iff. exists (p, o). split; [reflexivity|].
-  apply pdrop_fold_in. split; [exact Hin3|exact Hnd].
+  intros H Hin Hst. rewrite (book_apply_procs_eq b rp b' H). apply psetf_fold_keys. right.
+  apply in_map_iff. exists (p, pi). split; [reflexivity|]. apply in_filter_nonstep. auto.
+Qed.
+
+(* ... with its object, when the reports of that path agree on it (otherwise: the last one's) *)
+Lemma psetf_fold_obj adds : forall l p o,
+  (forall pi, In (p, pi) adds -> pi_obj pi = o) ->
+  In (p, o) l \/ In p (map fst adds) -> In (p, o) (fold_left psetf adds l).
+Proof.
+  induction adds as [|[q pi] adds IH]; intros l p o Hfun H; cbn [fold_left].
+  - destruct H as [H|[]]. exact H.
+  - apply IH; [intros pi0 Hin0; apply Hfun; right; exact Hin0|].
+    unfold psetf. cbn [fst snd]. destruct (list_eq_dec N.eq_dec q p) as [->|Hne].
+    + left. rewrite (Hfun pi (or_introl eq_refl)). apply pset_in_self.
+    + cbn [map fst In] in H. destruct H as [H|[H|H]]; [left|congruence|right; exact H].
+      apply pset_in_other; [congruence|exact H].
+Qed.
+
+Theorem book_apply_registers_obj b rp b' p pi :
+  book_apply b rp = Ok b' -> In (p, pi) (r_process rp) -> pi_step pi = false ->
+  (forall pi', In (p, pi') (r_process rp) -> pi_step pi' = false -> pi_obj pi' = pi_obj pi) ->
+  In (p, pi_obj pi) (b_procs b').
+Proof.
+  intros H Hin Hst Hfun. rewrite (book_apply_procs_eq b rp b' H). apply psetf_fold_obj.
+  - intros pi' Hin'. apply in_filter_nonstep in Hin'. destruct Hin' as [Hin' Hs']. apply (Hfun pi' Hin' Hs').
+  - right. apply in_map_iff. exists (p, pi). split; [reflexivity|]. apply in_filter_nonstep. auto.
+Qed.
+
+(* ---- the full engine step: only what the store still holds is registered ---- *)
+Lemma held_deletions t rp : r_deletions (held_reports t rp) = r_deletions rp.
+Proof. unfold held_reports. destruct (r_deletions rp) eqn:E; [exact E|reflexivity]. Qed.
+
+Lemma held_process_in t rp pp :
+  In pp (r_process (held_reports t rp)) <->
+  In pp (r_process rp) /\ (r_deletions rp = [] \/ held_proc t pp = true).
+Proof.
+  unfold held_reports. destruct (r_deletions rp) as [|d ds]; cbn [r_process].
+  - split; [intros H; auto|intros [H _]; exact H].
+  - rewrite filter_In. split; [intros [H1 H2]; auto|intros [H1 [H2|H2]]; [discriminate H2|auto]].
+Qed.
+
+Lemma held_step_in t rp pp :
+  In pp (r_step (held_reports t rp)) <->
+  In pp (r_step rp) /\ (r_deletions rp = [] \/ held_proc t pp = true).
+Proof.
+  unfold held_reports. destruct (r_deletions rp) as [|d ds]; cbn [r_step].
+  - split; [intros H; auto|intros [H _]; exact H].
+  - rewrite filter_In. split; [intros [H1 H2]; auto|intros [H1 [H2|H2]]; [discriminate H2|auto]].
+Qed.
+
+(* what the full step leaves under a deleted path is held by the store: the node exists in the new hierarchy
+   and holds that very object *)
+Theorem engine_apply_drops b t' rp b' d p o :
+  engine_apply b t' rp = Ok b' -> In d (r_deletions rp) -> In (p, o) (b_procs b') -> starts_with p d = true ->
+  exists pi, In (p, pi) (r_process rp) /\ pi_step pi = false /\ o = pi_obj pi /\ held_proc t' (p, pi) = true.
+Proof.
+  unfold engine_apply. intros H Hd Hin Hsw.
+  assert (Hd' : In d (r_deletions (held_reports t' rp))) by (rewrite held_deletions; exact Hd).
+  destruct (book_apply_drops _ _ _ d p o H Hd' Hin Hsw) as (pi & Hr & Hs & Ho).
+  apply held_process_in in Hr. destruct Hr as [Hr [Hnil|Hh]]; [rewrite Hnil in Hd; destruct Hd|].
+  exists pi. auto.
+Qed.
+
+Theorem engine_apply_drops_steps b t' rp b' d p o :
+  engine_apply b t' rp = Ok b' -> In d (r_deletions rp) -> In (p, o) (b_steps b') -> starts_with p d = true ->
+  exists pi, (In (p, pi) (r_step rp) \/ In (p, pi) (r_process rp) /\ pi_step pi = true) /\ o = pi_obj pi /\
+             held_proc t' (p, pi) = true.
+Proof.
+  unfold engine_apply. intros H Hd Hin Hsw.
+  assert (Hd' : In d (r_deletions (held_reports t' rp))) by (rewrite held_deletions; exact Hd).
+  destruct (book_apply_drops_steps _ _ _ d p o H Hd' Hin Hsw) as (pi & Hr & Ho).
+  exists pi. destruct Hr as [Hr|[Hr Hs]].
+  - apply held_step_in in Hr. destruct Hr as [Hr [Hnil|Hh]]; [rewrite Hnil in Hd; destruct Hd|]. auto.
+  - apply held_process_in in Hr. destruct Hr as [Hr [Hnil|Hh]]; [rewrite Hnil in Hd; destruct Hd|]. auto.
+Qed.
+
+(* a reported process the store still holds is registered by the full step *)
+Theorem engine_apply_registers b t' rp b' p pi :
+  engine_apply b t' rp = Ok b' -> In (p, pi) (r_process rp) -> pi_step pi = false ->
+  (r_deletions rp = [] \/ held_proc t' (p, pi) = true) -> In p (map fst (b_procs b')).
+Proof.
+  unfold engine_apply. intros H Hin Hst Hh.
+  apply (book_apply_registers _ _ _ p pi H); [|exact Hst]. apply held_process_in. auto.
 Qed.
 
 End Kit.
@@ -1075,8 +1403,22 @@ Print Assumptions move_moves.
 Print Assumptions divide_removes_mother.
 Print Assumptions order_ops_perm.
 Print Assumptions order_ops_sorted.
+Print Assumptions order_ops_pinned_perm.
+Print Assumptions order_ops_pinned_sorted.
 Print Assumptions split_conserves.
 Print Assumptions split_refuted_pinned.
+Print Assumptions book_register_tables.
+Print Assumptions book_apply_tables.
+Print Assumptions book_apply_procs_eq.
+Print Assumptions book_apply_steps_eq.
+Print Assumptions book_apply_pinned_tables.
+Print Assumptions book_apply_pinned_drops.
 Print Assumptions book_apply_drops.
 Print Assumptions book_apply_drops_steps.
+Print Assumptions book_apply_drops_unreported.
+Print Assumptions book_apply_drops_steps_unreported.
 Print Assumptions book_apply_registers.
+Print Assumptions book_apply_registers_obj.
+Print Assumptions engine_apply_drops.
+Print Assumptions engine_apply_drops_steps.
+Print Assumptions engine_apply_registers.
